@@ -77,7 +77,8 @@ PROPS["C10"] = {
 
 PROPS["C11"] = {
     "title": "Latency percentiles are ordered and within a bounded rank error",
-    "units": [{"name": "percentiles", "pkg": "lib", "run": "^TestC11", "scale_thorough": 30}],
+    "units": [{"name": "percentiles", "pkg": "lib", "run": "^TestC11", "scale_thorough": 30},
+              {"name": "reportcmd", "pkg": "main", "run": "^TestC11", "shards_quick": 2, "shards_thorough": 8}],
     "rule": "rapid draws latency multisets of n in {1..20} or log-uniform up to 5000 (thorough: up to 1e5) from eight "
             "families (uniform, log-normal, exponential, constant, few-valued, bimodal with gaps up to 1e9x, heavy tail, "
             "ramp) in six arrival orders (as drawn, sorted, reversed, zig-zag, shuffled blocks, reversed blocks). "
